@@ -215,7 +215,34 @@ func Discharge(obligs []*Oblig, opt DischargeOpts) []Result {
 				os[k] = obligs[i]
 			}
 			gkey := ""
+			// a proved group proves each member under its own path condition (hyps_j = hyps_first + suffix_j): the members'
+			// own keys are recorded too, so that another selection of obligations (another property over the same
+			// function) that groups them differently is answered from the cache
+			addMembers := func() {
+				if opt.All || Cache == nil {
+					return
+				}
+				for _, i := range g {
+					Cache.AddKey(mkKey([]*Oblig{obligs[i]}))
+				}
+			}
 			if !opt.All && Cache != nil {
+				allKnown := true
+				for _, i := range g {
+					if !Cache.HasKey(mkKey([]*Oblig{obligs[i]})) {
+						allKnown = false
+						break
+					}
+				}
+				if allKnown {
+					Cache.CountHit()
+					mu.Lock()
+					for _, i := range g {
+						res[i].Status, res[i].By, res[i].Grouped = "unsat", "cache", true
+					}
+					mu.Unlock()
+					return
+				}
 				gkey = mkKey(os)
 				if Cache.ProvedKey(scriptKey("group-not-proved-at-once:" + gkey)) {
 					// this group was tried before and had to be split: go to the single obligations directly
@@ -225,6 +252,7 @@ func Discharge(obligs []*Oblig, opt DischargeOpts) []Result {
 					return
 				}
 				if Cache.ProvedKey(gkey) {
+					addMembers()
 					mu.Lock()
 					for _, i := range g {
 						res[i].Status, res[i].By, res[i].Grouped = "unsat", "cache", true
@@ -236,6 +264,7 @@ func Discharge(obligs []*Oblig, opt DischargeOpts) []Result {
 			script := mkScript(os, false)
 			if !opt.All && Cache.Proved(script) {
 				Cache.AddKey(gkey)
+				addMembers()
 				mu.Lock()
 				for _, i := range g {
 					res[i].Status, res[i].By, res[i].Grouped = "unsat", "cache", true
@@ -260,6 +289,7 @@ func Discharge(obligs []*Oblig, opt DischargeOpts) []Result {
 				if gkey != "" {
 					Cache.AddKey(gkey)
 				}
+				addMembers()
 				return
 			}
 			if gkey != "" {
